@@ -282,7 +282,7 @@ def decFrameInto (init : Frame) (b : Bytes) : Except PyErr Frame := do
   let fs ← fieldsOf b
   fs.foldlM (fun (fr : Frame) f =>
     match f with
-    | (1, .len p) => do let r ← decRow (depthLimit - 2) p; pure { fr with rows := fr.rows ++ [r] }
+    | (1, .len p) => do let r ← decRow (depthLimit - 1) p; pure { fr with rows := fr.rows ++ [r] }
     | (15, .len p) => do let (k, v) ← decMetaEntry p; pure { fr with metadata := setMeta fr.metadata k v }
     | _ => pure fr) init
 
